@@ -390,6 +390,7 @@ func (s *State) evalPrintLogError(node *ast.Builtin) object.Object {
 		if r.Type() == object.ERROR && !doLog {
 			return r
 		}
+		r = object.Value(r) // deref: a reference to an outer string must print like the string.
 		if isString := r.Type() == object.STRING; isString {
 			buf.WriteString(r.(object.String).Value)
 		} else {
